@@ -46,6 +46,9 @@ func c02Values() []sb.V {
 		{K: "stringer", S: "strg"}, {K: "decimal", S: "1.50"}, {K: "safe", TS: []string{"html"}, E: []sb.V{str("<b>")}}, {K: "time"}, {K: "chan"}, {K: "func"},
 		// data that refers back to itself, a nil embedded pointer, a NaN key, a nil hash
 		{K: "cyclicmap"}, {K: "cyclicnode"}, {K: "embednil", S: "Home"}, {K: "map:float64:str", KV: []sb.V{{K: "nan"}}, E: []sb.V{str("nan")}}, {K: "nilmap:value"},
+		// a list marked as safe, lists sharing their sub-lists 40 levels deep, a nil pointer to a SafeValue implementation
+		{K: "safe", TS: []string{"html"}, E: []sb.V{{K: "arr", E: []sb.V{num(1), num(2)}}}}, {K: "safe", TS: []string{"js"}, E: []sb.V{{K: "hash", KS: []string{"a"}, E: []sb.V{num(1)}}}},
+		{K: "dag"}, {K: "nilptr:customsafe"},
 	}
 }
 
@@ -128,6 +131,11 @@ func init() {
 		done := true
 		for _, f := range gen.TwigFilters {
 			for _, v := range vals {
+				if v.K == "dag" {
+					// written out as a tree this value has 2^40 leaves: only the
+					// operators, which need not write it out, are given it
+					continue
+				}
 				for _, a := range argl {
 					idx++
 					if !c.Mine(idx) {
@@ -149,7 +157,8 @@ func init() {
 					if !c.Mine(idx) {
 						continue
 					}
-					if c.Quick() && Mix(c.Seed, uint64(idx))%6 != 0 {
+					special := (l.K == "safe" || l.K == "dag" || l.K == "nilptr:customsafe") && (r.K == "safe" || r.K == "dag" || r.K == "nilptr:customsafe")
+					if c.Quick() && !special && Mix(c.Seed, uint64(idx))%6 != 0 {
 						continue
 					}
 					if op == ".." && (bigNum(l) || bigNum(r)) {
